@@ -85,7 +85,7 @@ def name_harness(L):
             reg = core.AudioRegion(data, 10, 2, 1, start=SymRat(p, 1000))
             Placeholder.registry.clear()
             ret = reg.save("ev_{start:.3f}_{end:.2f}_{duration}.wav")
-            toks = [Placeholder.registry[k] for k in sorted(Placeholder.registry, key=lambda s: int(s[1:-1]))]
+            toks = list(Placeholder.registry.values())
             byspec = {t.spec: t for t in toks}
             expect = "ev_%s_%s_%s.wav" % tuple(str.__str__(byspec[s]) if s in byspec else "?" for s in (".3f", ".2f", ""))
             conds["name follows the template"] = ret == expect and ret in fs.files
@@ -103,6 +103,11 @@ def name_harness(L):
                 conds["exists_ok=False refuses an existing file"] = False
             except FileExistsError:
                 conds["nothing written on refusal"] = len(fs.log) == log_before and fs.files.keys() == fs2_before.keys()
+            try:
+                reg.save("ev_{start:.3f}_{end:.2f}_{duration}.wav", exists_ok=False)
+                conds["exists_ok=False refuses when the formatted name exists"] = False
+            except FileExistsError:
+                conds["nothing written on refusal (template)"] = len(fs.log) == log_before
             try:
                 reg.save("fresh.wav", exists_ok=False)
                 conds["exists_ok=False writes a new file"] = "fresh.wav" in fs.files
@@ -241,6 +246,11 @@ def replay_fn(c):
             except FileExistsError:
                 if open(ret, "rb").read() != before:
                     return [("C18: exists_ok=False refused but modified the file", ret)]
+            try:
+                reg.save(tpl, exists_ok=False)
+                return [("C18: exists_ok=False overwrites when the name comes from a template", ret)]
+            except FileExistsError:
+                pass
             try:
                 ak.AudioRegion(b"\1\2", 10, 2, 1).save(Path(ret), exists_ok=False)
                 return [("C18: exists_ok=False overwrites an existing Path", ret)]
